@@ -213,6 +213,8 @@ class BaseServer:
                 value = value()
             if value is True:
                 cookie += '; ' + attribute
+            elif value is False:
+                continue
             else:
                 cookie += '; ' + attribute + '=' + value
         return cookie
